@@ -584,9 +584,11 @@ def patch_future():
             switch("F." + name)
             S.emit("F." + name, S.role(self, "f"), fstate(self))
             r = orig(self, *a, **k)
-            if name in ("cancelled", "running", "done"):
-                # a second scheduling point AFTER a state read: the caller is about to act on what it saw
-                # (check-then-act); another thread may get in between unless a lock really excludes it
+            if name in ("cancelled", "running", "done") and str(S.role(self, "f")).startswith(("r", "M")):
+                # a second scheduling point AFTER a state read of a LIBRARY future: the caller is about to act on what
+                # it saw (check-then-act under the future's lock); another thread may get in between unless the lock
+                # really excludes it.  (Not after reads of delegate futures: Model/Retry.v evaluates the unlocked
+                # look-ups of _delegate_callback at the read that precedes them - see DESIGN.md section 12.)
                 switch("F." + name + ".after")
             return r
 
